@@ -287,7 +287,7 @@ typedef mpi::amg<BD, RCoarsening, runtime::mpi::relaxation::wrapper<BD>, mpi::di
 typedef mpi::make_solver<AMG, runtime::mpi::solver::wrapper<BD>> Solver;
 
 // ------------------------------------------------------------------ amg (hierarchy construction, recorded)
-static void op_amg(const char *coarsening, int over, const crsd &A, const part &rp, bool repart, int ratio, int coarse_enough) {
+static void op_amg(const char *coarsening, int over, const crsd &A, const part &rp, bool repart, int ratio, int coarse_enough, bool rebuild = false) {
     ++CASEID;
     ptree p;
     p.put("coarsening.type", coarsening);
@@ -301,9 +301,18 @@ static void op_amg(const char *coarsening, int over, const crsd &A, const part &
     g_rec = rec_state(); g_rec.on = true; g_rec.cname = coarsening; g_rec.over = over;
     auto D = make_dm(A, rp);
     { vr::obj o; o.str("k", "amgcase").i("case", CASEID).i("np", NP).ints("rp", rp).i("n", A.nrows).str("coarsening", coarsening).i("over", over).b("repart", repart).i("ratio", ratio); put(o, true); }
+    p.put("allow_rebuild", rebuild);
     begin_op();
     AMG amg(comm, D, p);
     end_op("amg-setup");
+    if (rebuild) {
+        // rebuild with a new matrix (2 A): the transfer operators kept by move_to_backend(keep_src = true)
+        // are reused, every rebuilt level must again be the (re-scaled) Galerkin product
+        crsd A2(A); for (size_t j = 0; j < A2.nnz; ++j) A2.val[j] *= 2;
+        { vr::obj o; o.str("k", "amgcase").i("case", CASEID).i("np", NP).ints("rp", rp).i("n", A.nrows).str("coarsening", coarsening).i("over", over).b("repart", repart).i("ratio", ratio).b("rebuild", true); put(o, true); }
+        g_rec.level = 0; g_rec.pending = false;
+        amg.rebuild(make_dm(A2, rp));
+    }
     g_rec.on = false;
 }
 
@@ -326,6 +335,46 @@ static void op_direct(vr::rng &g, const crsd &A, const part &rp) {
     bool ex = true; o.raw("A", vr::crs_json(A, ex)); if (!ex) ok = false;
     o.dbls("f", f).dbls("xe", xe);
     std::vector<ll> xq(xl.size()); for (size_t i = 0; i < xl.size(); ++i) { double v = std::ldexp(xl[i], 24); xq[i] = std::isfinite(v) && std::fabs(v) < 1e9 ? (ll)std::llround(v) : 999999999; }
+    o.raw("xq", dv::gather_vec(xq));
+    put(o, ok);
+}
+
+// the same clause for block value types: mpi::direct::skyline_lu<static_matrix<double,B,B>> directly on a
+// small distributed block matrix (A = kron(S, T_B), S an M-matrix, T_B = tridiag(-1, 2, -1): SPD, integer),
+// rhs / solution travel as block vectors between the slave ranks and the master
+template <int B>
+static void op_direct_block(vr::rng &g, const crsd &S, const part &rpb /* block rows */) {
+    ++CASEID;
+    typedef static_matrix<double, B, B> VB; typedef static_matrix<double, B, 1> RB;
+    typedef backend::builtin<VB> BBk; typedef mpi::distributed_matrix<BBk> DMB;
+    int nb = S.nrows, n = nb * B;
+    std::vector<std::vector<std::pair<int,double>>> rows(n);
+    for (int i = 0; i < nb; ++i) for (ptrdiff_t j = S.ptr[i]; j < S.ptr[i + 1]; ++j) for (int a = 0; a < B; ++a) for (int b = 0; b < B; ++b) {
+        double t = a == b ? 2 : (std::abs(a - b) == 1 ? -1 : 0);
+        rows[B * i + a].push_back(std::make_pair((int)(B * S.col[j] + b), S.val[j] * t));     // explicit zeros keep the blocks full
+    }
+    auto A = vr::from_rows(n, n, rows);
+    std::vector<double> xe(n), f(n, 0.0);
+    for (auto &v : xe) v = g.range(-4, 4);
+    for (int i = 0; i < n; ++i) for (ptrdiff_t j = A->ptr[i]; j < A->ptr[i + 1]; ++j) f[i] += A->val[j] * xe[A->col[j]];
+    int rb = B * rpb[R], re = B * rpb[R + 1], nl = rpb[R + 1] - rpb[R];
+    dv::strip s = dv::take_rows(*A, rb, re);
+    auto Ts = std::tie(s.n, s.ptr, s.col, s.val);
+    auto Ab = adapter::block_matrix<VB>(Ts);
+    DMB D(comm, Ab, (ptrdiff_t)nl);
+    begin_op();
+    mpi::direct::skyline_lu<VB> Sv(comm, D);
+    std::vector<RB> fl(nl), xl(nl, math::zero<RB>());
+    for (int i = 0; i < nl; ++i) for (int a = 0; a < B; ++a) fl[i](a) = f[rb + B * i + a];
+    Sv(fl, xl);
+    Sv(fl, xl);
+    end_op("direct-block");
+    bool ok = true;
+    part rps(rpb); for (auto &v : rps) v *= B;
+    vr::obj o; o.str("k", "direct").str("tag", B == 2 ? "block2" : "block3").i("case", CASEID).i("np", NP).ints("rp", rps).i("bs", B);
+    bool ex = true; o.raw("A", vr::crs_json(*A, ex)); if (!ex) ok = false;
+    o.dbls("f", f).dbls("xe", xe);
+    std::vector<ll> xq(nl * B); for (int i = 0; i < nl; ++i) for (int a = 0; a < B; ++a) { double v = std::ldexp(xl[i](a), 24); xq[B * i + a] = std::isfinite(v) && std::fabs(v) < 1e9 ? (ll)std::llround(v) : 999999999; }
     o.raw("xq", dv::gather_vec(xq));
     put(o, ok);
 }
@@ -514,7 +563,7 @@ static void mode_amg(uint64_t seed, bool th) {
         bool rep = g.coin(0.6);
         int ratio = g.range(2, 3);
         int over = g.coin() ? 1 : 2;
-        GUARD(op_amg("aggregation", over, *A, rp, rep, ratio, g.range(3, 12)));
+        GUARD(op_amg("aggregation", over, *A, rp, rep, ratio, g.range(3, 12), r % 2 == 1));
         if (r % 2 == 0) GUARD(op_amg("smoothed_aggregation", 1, *A, rp, rep, ratio, g.range(3, 12)));
         if (r % 4 == 1) GUARD(op_amg("aggregation", 3, *A, rp, rep, ratio, g.range(3, 12)));
     }
@@ -522,6 +571,13 @@ static void mode_amg(uint64_t seed, bool th) {
         int n = g.range(1, 24);
         auto A = vr::random_mmatrix(g, n, 0.2, 3, 1, true);
         GUARD(op_direct(g, *A, thin_part(g, n, g.below(4))));
+    }
+    // block value types; styles 0/1 spread the system over several non-empty ranks (slaves talk to the master)
+    for (int r = 0; r < (th ? 40 : 10); ++r) {
+        int nb = g.range(std::min(NP, 4), 12);
+        auto S = vr::random_mmatrix(g, nb, 0.25, 2, 1, true);
+        part rp = thin_part(g, nb, r % 4 == 3 ? g.below(4) : r % 2);
+        if (r % 2) { GUARD(op_direct_block<3>(g, *S, rp)); } else { GUARD(op_direct_block<2>(g, *S, rp)); }
     }
 }
 
